@@ -307,6 +307,8 @@ def main(argv=None):
                        "part 2 of the property (all other API calls are free of UB) is not decided by this check, see the explanation"]
     chk.rule = ("one evaluation = one obligation = one symbolic exploration (all n, all contents) of a parser entry point; every memory access on every path is a "
                 "solver VC against the symbolic buffer length or a concrete bounds test against the exact-size destination objects")
+    # the element decoder itself (C17's own obligations model it as "reads exactly the encoding"): its byte-level obligations from C09, for every byte string
+    chk.include("C09", only=r"decode-memory|canonical")
     chk.run()
     chk.finish()
 
